@@ -127,7 +127,7 @@ pub fn cell_input(class: InputClass) -> BoxedStrategy<String> {
     let plain = prop_oneof![
         6 => (-1000..1000i32).prop_map(|n| n.to_string()),
         3 => (-1000..1000i32, 0..100u32).prop_map(|(n, d)| format!("{n}.{d:02}")),
-        1 => Just("123456789012345678".to_string()),
+        1 => if class == InputClass::Full { Just("123456789012345678".to_string()) } else { Just("1234567".to_string()) },
         4 => "[a-z]{1,6}".prop_map(|s| s),
         1 => Just("Hello World".to_string()),
         1 => Just("ñandú €".to_string()),
